@@ -101,6 +101,17 @@ for op in ('plus', 'minus'):
     jobs += [job('evplus_%s_kernel' % op, 'lemma_evplus_%s_kernel' % op, props=['C05', 'C16'] if op == 'minus' else ['C05']),
              job('evplus_%s_shortcuts_pw' % op, 'lemma_evplus_%s_shortcuts_pw' % op, props=['C05', 'C16'] if op == 'minus' else ['C05'])]
 
+# EV* DIVIDE (factored interface, float edge values)
+EVS = dict(file=opfile('div'), static=True, subst={'RANGE': 'long', 'EDGETYPE': 'float'}, foreign={'set': {'*': 'edge_value__set_float'}})
+funcs += [
+    dict(cls='edge_value', name='operator float', file=EVH, cname='edge_value__to_float'),
+    dict(cls='edge_value', name='set', file=EVH, sel=r'^float v$', cname='edge_value__set_float', argc_key='k_float'),
+    dict(cls='evstar_div', name='stopOnEqualArgs', **EVS), dict(cls='evstar_div', name='simplifiesToFirstArg', **EVS), dict(cls='evstar_div', name='simplifiesToSecondArg', **EVS),
+    dict(cls='evstar_div', name='apply', sel=r'^const forest\* fa, node_handle a', cname='evstar_div__apply_node', argc_key=6, **EVS),
+    dict(cls='evstar_div', name='apply', sel=r'^const edge_value &a, const edge_value &b', cname='evstar_div__apply_edge', argc_key=3, **EVS),
+]
+jobs += [job('evstar_div_kernel', 'lemma_evstar_div_kernel', props=['C05', 'C16']), job('evstar_div_shortcuts_pw', 'lemma_evstar_div_shortcuts_pw', props=['C05', 'C16'])]
+
 UNIT = {
     'name': 'arith',
     'conversion_classes': ['edge_value'],
@@ -114,7 +125,7 @@ UNIT = {
         ('edge_value', {'file': EVH}),
         ('policies', {'file': PH, 'fields': ['reduction']}),
         ('forest', {'file': FH, 'fields': ['deflt', 'the_terminal_type'], 'override': {'deflt': 'struct policies deflt'}}),
-    ] + [('mt_' + op, {'opaque': True}) for op in OPS] + [('evplus_' + op, {'opaque': True}) for op in ('mult', 'div', 'mod', 'max', 'min', 'plus', 'minus')]
+    ] + [('mt_' + op, {'opaque': True}) for op in OPS] + [('evplus_' + op, {'opaque': True}) for op in ('mult', 'div', 'mod', 'max', 'min', 'plus', 'minus')] + [('evstar_div', {'opaque': True})]
       + [(c + sfx, {'opaque': True}) for c in CMP for sfx in ('_base', '_mt', '_evplus')]),
     'foreign': {
         'getValueFromHandle': {'*': 'forest__getValueFromHandle_long'},
